@@ -112,10 +112,13 @@ func cmdBuilders(args []string) int {
 		return 2
 	}
 	c := &Ctx{P: p, R: NewReport("builders", "quick"), Verif: "/verif"}
-	out := map[string][]string{}
+	out := map[string]interface{}{}
+	params := map[string][]string{}
 	for _, t := range builderTargets(c) {
 		out[t.name] = fingerprintOf(c, t)
+		params[t.name] = e6Names(t.fn)
 	}
+	out["__params__"] = params
 	b, _ := json.MarshalIndent(out, "", " ")
 	fmt.Println(string(b))
 	return 0
@@ -143,7 +146,7 @@ func e6CheckProp(c *Ctx, rule, prop string, min int) {
 		}
 		n++
 		seen[t.name] = true
-		e6Check(c, rule, t.name, c.P.pos(t.fn.Pos()), fingerprintOf(c, t), rows)
+		e6Check(c, rule, t.name, c.P.pos(t.fn.Pos()), fingerprintOf(c, t), rows, e6Names(t.fn))
 	}
 	r.Count(rule+"-functions", n)
 	r.Expect(rule+"-functions", min)
